@@ -8,6 +8,7 @@ import (
 	"math/rand"
 	"slices"
 	"strings"
+	"sync"
 	"time"
 
 	"github.com/gammazero/nexus/v3/stdlog"
@@ -100,6 +101,10 @@ type dealer struct {
 
 	actionChan chan func()
 	stopped    chan struct{}
+
+	// Call timeout goroutines, which send on actionChan. close() waits for
+	// them before closing actionChan.
+	timers sync.WaitGroup
 
 	// Generate registration IDs.
 	idGen *wamp.IDGen
@@ -404,6 +409,20 @@ func (d *dealer) removeSession(sess *wamp.Session) {
 
 // close stops the dealer, letting already queued actions finish.
 func (d *dealer) close() {
+	// Stop the timers of calls that are still pending and wait for the timer
+	// goroutines to exit: one that fired would send on the closed channel.
+	done := make(chan struct{})
+	d.actionChan <- func() {
+		for _, invk := range d.invocations {
+			if invk.timerCancel != nil {
+				invk.timerCancel()
+			}
+		}
+		close(done)
+	}
+	<-done
+	d.timers.Wait()
+
 	close(d.actionChan)
 	<-d.stopped
 	if d.debug {
@@ -932,7 +951,9 @@ func (d *dealer) syncCall(caller *wamp.Session, msg *wamp.Call) {
 		// Start goroutine to cancel pending call on timeout. Works like Cancel
 		// with mode=killnowait, and includes an error message argument "call
 		// timeout"
+		d.timers.Add(1)
 		go func() {
+			defer d.timers.Done()
 			<-timerCtx.Done()
 			if errors.Is(timerCtx.Err(), context.Canceled) {
 				// Timer canceled. Got response from callee, or caller canceled
